@@ -1039,6 +1039,7 @@ func main() {
 	shk := flag.String("shakespeare", "", "path of the real binary")
 	par := flag.Int("par", 12, "plays run in parallel")
 	nflag := flag.Int("n", 0, "number of plays (0 = tier default)")
+	only := flag.Int("only", -1, "run only the play with this index (replay)")
 	flag.Parse()
 	if *shk == "" {
 		fmt.Fprintln(os.Stderr, "need -shakespeare")
@@ -1071,6 +1072,13 @@ func main() {
 		}
 	default:
 		panic("unknown -prop")
+	}
+
+	if *only >= 0 {
+		if *only >= len(cases) {
+			panic("no such case")
+		}
+		cases = cases[*only : *only+1]
 	}
 
 	// run, *par at a time; the slow plays (sleep 300 + bound) first so they overlap with the rest
